@@ -1,6 +1,7 @@
 mod proto;
 mod interp;
 mod c02;
+mod c03;
 
 use proto::Recorder;
 use std::path::PathBuf;
@@ -43,6 +44,7 @@ fn main() {
             }
         }
         "C02" => c02::run(&mut rec, &mut w, &tier, seed),
+        "C03" => c03::run(&mut rec, &mut w, &tier, seed),
         _ => { eprintln!("unknown property {}", prop); std::process::exit(2); }
     }
     rec.finish();
